@@ -663,6 +663,8 @@ def known_matcher(entry, c, o):
         if k == "lz4":
             return bad and not c["defaults"] and not c["prepended"] and "panic" in o["steps"][2]
         return k == "lz4frame" and bad and "panic" in o["steps"][0]
+    if cls == "lz4-magic-length":
+        return k == "lz4" and c.get("prepend") is True and len(x) == 0x184D2204
     if cls == "charset-utf16-encoder":
         return k == "charset" and c["label"].strip().lower() in ("utf-16le", "utf-16be", "utf-16") and len(x) > 0
     if cls == "charset-bom-sniffing":
